@@ -468,3 +468,920 @@ def canon_edit(e, with_reeval=True):
 
 def edit_set(edits, with_reeval=True):
     return {canon_edit(e, with_reeval) for e in edits}
+
+
+# =============================================================================== child (fresh interpreter)
+class _State:
+    def __init__(self):
+        self.reset()
+        self.catch = False
+
+    def reset(self):
+        self.counters = {}
+        self.out = []
+        self.log = []
+        self.sitelog = []
+        self.o = type("Obj", (), {})()
+        self.m = {}
+
+
+def _desc(obj):
+    if isinstance(obj, type):
+        return "class:" + ",".join(sorted(k for k, v in vars(obj).items()
+                                          if callable(v) and hasattr(v, "__beartype_wrapper")))
+    return "func:wrapped" if hasattr(obj, "__beartype_wrapper") else "func:plain"
+
+
+def _describe(v, depth=0):
+    import types
+    if isinstance(v, type):
+        return ["class", {k: _describe(x, depth + 1) for k, x in vars(v).items()
+                          if not k.startswith("__")}] if depth < 3 else ["class"]
+    if isinstance(v, (types.FunctionType, types.MethodType)) or hasattr(v, "__beartype_wrapper"):
+        return ["func", bool(hasattr(v, "__beartype_wrapper"))]
+    if v is None or isinstance(v, (int, str, bool, tuple, float)):
+        return ["val", repr(v)]
+    return ["obj", type(v).__name__]
+
+
+def _child_setup(st, root):
+    import builtins
+    import contextlib
+    import inspect
+    os.makedirs(os.path.join(root, "langchain_core"), exist_ok=True)
+    open(os.path.join(root, "langchain_core", "__init__.py"), "w").close()
+    with open(os.path.join(root, "langchain_core", "runnables.py"), "w") as fh:
+        fh.write("import builtins\n\ndef chain(obj):\n    return builtins._c05_hostile(obj)\n")
+    sys.path.insert(0, root)
+
+    def _t(key, val):
+        st.counters[key] = st.counters.get(key, 0) + 1
+        st.out.append(key)
+        return val
+
+    def _d(key):
+        _t(key, None)
+
+        def deco(obj):
+            st.log.append([key, _desc(obj)])
+            return obj
+        return deco
+
+    def _hostile(obj):
+        st.log.append(["h", _desc(obj)])
+        return obj
+
+    def _call(fn, form="none", value=None):
+        name = getattr(fn, "__name__", "?")
+        try:
+            if form in ("arg", "ret", "posonly", "vararg"):
+                r = fn(value)
+            elif form in ("kwonly", "kwarg"):
+                r = fn(a=value)
+            else:
+                r = fn()
+            if inspect.iscoroutine(r):
+                try:
+                    r.send(None)
+                    r.close()
+                except StopIteration:
+                    pass
+        except Exception as ex:      # noqa
+            if not st.catch:
+                raise
+            st.sitelog.append([name, type(ex).__name__])
+        else:
+            st.sitelog.append([name, None])
+
+    def _callm(cls, plan):
+        inst = cls()
+        for name, (form, value) in plan.items():
+            _call(getattr(inst, name), form, value)
+
+    builtins._t, builtins._d, builtins._call, builtins._callm = _t, _d, _call, _callm
+    builtins._c05_hostile = _hostile
+    import langchain_core.runnables as lr
+    builtins.hostile = lr.chain
+    builtins._cm = contextlib.nullcontext()
+    return builtins
+
+
+def child_main(jobfile):
+    import importlib
+    import traceback
+    import warnings
+    job = json.load(open(jobfile))
+    root, mode = job["root"], job["mode"]
+    st = _State()
+    builtins = _child_setup(st, root)
+    pkgs = {}
+    confs = {}
+
+    def pkg_for(ck, c):
+        name = {"unhooked": "c05u", "reference": "c05r", "hooked": "c05h"}[mode] + ck
+        if name not in pkgs:
+            os.makedirs(os.path.join(root, name), exist_ok=True)
+            open(os.path.join(root, name, "__init__.py"), "w").close()
+            pkgs[name] = True
+            if mode == "hooked":
+                from beartype.claw import beartype_package
+                beartype_package(name, conf=real_conf(c, hookable=False))
+            elif mode == "reference":
+                confs[ck] = real_conf(c, hookable=False)
+        return name
+
+    res = []
+    for it in job["items"]:
+        c = it["conf"]
+        ck = f"{int(c['pep'])}{c['pf']}{c['pt']}"
+        pkg = pkg_for(ck, c)
+        path = os.path.join(root, pkg, it["mod"] + ".py")
+        with open(path, "w") as fh:
+            fh.write(it["src"])
+        st.reset()
+        st.catch = bool(it.get("catch"))
+        # the attribute / subscript bases are fresh per module
+        builtins._o, builtins._m = st.o, st.m
+        if mode == "reference":
+            builtins._CONF = confs[ck]
+        ob = {"id": it["id"], "exc": None, "line": None, "msg": None}
+        g = None
+        with warnings.catch_warnings(record=True) as wl:
+            warnings.simplefilter("always")
+            try:
+                mod = importlib.import_module(f"{pkg}.{it['mod']}")
+                g = vars(mod)
+            except BaseException as ex:      # noqa
+                ob["exc"] = type(ex).__name__
+                ob["msg"] = str(ex)[:300]
+                for fr, ln in traceback.walk_tb(ex.__traceback__):
+                    if fr.f_code.co_filename == path:
+                        ob["line"] = ln
+                        if fr.f_code.co_name == "<module>":
+                            g = fr.f_globals
+                ex.__traceback__ = None
+        ob["warns"] = [[w.category.__name__, getattr(w, "lineno", 0)] for w in wl]
+        ob["snap"] = {k: _describe(v) for k, v in (g or {}).items()
+                      if not k.startswith("__") and k not in ("beartype", "die_if_unbearable")}
+        ob["snap"]["_o"] = {k: _describe(v) for k, v in vars(st.o).items()}
+        ob["snap"]["_m"] = {k: _describe(v) for k, v in st.m.items()}
+        ob["out"] = st.out
+        ob["counters"] = st.counters
+        ob["log"] = st.log
+        ob["sitelog"] = st.sitelog
+        res.append(ob)
+        g = None
+    with open(job["out"], "w") as fh:
+        json.dump(res, fh)
+    return 0
+
+
+def run_children(jobs, procs=16):
+    """jobs: list of (mode, items).  One fresh interpreter per job.  Returns {(mode, id): observation}."""
+    out = {}
+    from verifkit.util import scratch
+    with scratch("c05run-") as d:
+        specs = []
+        for n, (mode, items) in enumerate(jobs):
+            root = os.path.join(d, f"j{n}")
+            os.makedirs(root)
+            jf = os.path.join(root, "job.json")
+            with open(jf, "w") as fh:
+                json.dump({"mode": mode, "root": root, "items": items, "out": os.path.join(root, "out.json")}, fh)
+            specs.append((mode, jf, os.path.join(root, "out.json")))
+
+        def one(sp):
+            mode, jf, of = sp
+            cp = subprocess.run([sys.executable, "-W", "ignore", "-m", "verifkit.drivers.c05", "--child", jf],
+                                capture_output=True, text=True, env=dict(os.environ))
+            if cp.returncode != 0 or not os.path.exists(of):
+                return mode, None, (cp.stderr or cp.stdout)[-2000:]
+            return mode, json.load(open(of)), None
+
+        with ThreadPoolExecutor(procs) as ex:
+            for mode, obs, err in ex.map(one, specs):
+                if err is not None:
+                    raise RuntimeError(f"child interpreter ({mode}) failed: {err}")
+                for ob in obs:
+                    out[(mode, ob["id"])] = ob
+    return out
+
+
+
+# =============================================================================== models (R1)
+def _tla_set(xs):
+    return "{" + ", ".join('"%s"' % x for x in xs) + "}"
+
+
+def _cfg(d, name, slice_, n, depth, legacy=(), mutant=(), emit=False, invs=INVS, given=False):
+    from verifkit.util import write_file
+    txt = (f'CONSTANTS Slice = "{slice_}" MaxNodes = {n} MaxDepth = {depth} Legacy = {_tla_set(legacy)} '
+           f'Mutant = {_tla_set(mutant)} Emit = {"TRUE" if emit else "FALSE"}\n'
+           + ("CONSTANT Given <- GivenDef\n" if given else "CONSTANT Given = {}\n")
+           + "INIT Init\nNEXT Next\n" + "".join(f"INVARIANT {i}\n" for i in invs))
+    return write_file(d, name + ".cfg", txt)
+
+
+EMIT_INVS = ["TypeOK", "LinePreserved", "ImportPlaced", "ChecksWellPlaced", "ScopeBalanced"]
+
+
+def slices_of(tier):
+    if tier == "quick":
+        return {"scope": (5, 3), "kinds": (3, 3), "deco": (3, 3), "prefix": (4, 2)}
+    return {"scope": (6, 3), "kinds": (3, 3), "kinds4": (4, 3), "deco": (4, 3), "prefix": (5, 3)}
+
+
+def rows_of(res):
+    return [x for x in res.printed if isinstance(x, dict) and "prog" in x]
+
+
+def run_models(rep, tier, d):
+    """All TLC runs of one tier, concurrently.  Returns the case-table rows (from the Legacy runs)."""
+    from verifkit import tlc
+    sl = slices_of(tier)
+    futs = {}
+    with ThreadPoolExecutor(24) as ex:
+        for name, (n, depth) in sl.items():
+            futs[("intended", name)] = ex.submit(
+                tlc.run_tlc, SPEC, _cfg(d, f"i_{name}", name, n, depth), workers=4, coverage=True, deadlock=False,
+                heap="4g")
+            futs[("rows", name)] = ex.submit(
+                tlc.run_tlc, SPEC, _cfg(d, f"r_{name}", name, n, depth, legacy=LEGACY, emit=True, invs=EMIT_INVS),
+                workers=4, deadlock=False, heap="4g")
+        for mu, (name, n, depth) in MUTANTS.items():
+            futs[("mutant", mu)] = ex.submit(
+                tlc.run_tlc, SPEC, _cfg(d, f"m_{mu}", name, n, depth, mutant=[mu]), workers=2, deadlock=False,
+                heap="1g")
+        for lg, (name, n, depth, _inv) in LEGACY_DEMO.items():
+            futs[("legacy", lg)] = ex.submit(
+                tlc.run_tlc, SPEC, _cfg(d, f"l_{lg}", name, n, depth, legacy=[lg]), workers=2, deadlock=False,
+                heap="1g")
+        res = {k: f.result() for k, f in futs.items()}
+    cov = {}
+    rows = []
+    for name in sl:
+        a, b = res[("intended", name)], res[("rows", name)]
+        rep.tlc(a, f"ClawAst slice {name} {sl[name]}: intended design, all invariants")
+        rep.tlc(b, f"ClawAst slice {name} {sl[name]}: 0.23.0 deviations (Legacy), case table emitted")
+        if not a.ok:
+            rep.machinery(f"ClawAst.tla (intended design, slice {name}) violates {a.violated}: the specification is wrong")
+        if not b.ok:
+            rep.machinery(f"ClawAst.tla (Legacy, slice {name}) violates structural invariant {b.violated}")
+        for act, (dd, tt) in a.coverage.items():
+            cov[act] = cov.get(act, 0) + tt
+        rs = rows_of(b)
+        want = a.coverage.get("Finish", (0, 0))[0]
+        if not rs or (want and len(rs) != want):
+            rep.machinery(f"slice {name}: {len(rs)} rows emitted, {want} finished walks in the intended run")
+        rows += rs
+    zero = [x for x in ACTIONS if not cov.get(x)]
+    if zero:
+        rep.machinery(f"vacuous TLC runs: actions never taken: {zero}")
+    for mu in MUTANTS:
+        r = res[("mutant", mu)]
+        rep.tlc(r, f"spec mutant {mu}")
+        if r.ok or not r.violated:
+            rep.machinery(f"spec mutant {mu} is not rejected by TLC")
+        rep.add("spec_mutants_killed")
+    for lg, (_n, _a, _b, inv) in LEGACY_DEMO.items():
+        r = res[("legacy", lg)]
+        rep.tlc(r, f"named deviation {lg} alone")
+        if r.ok or not r.violated:
+            rep.machinery(f"the named 0.23.0 deviation {lg} does not violate any invariant of the model")
+        rep.add("legacy_deviations_rejected_by_model")
+        rep.note(f"model: deviation {lg} violates {r.violated}")
+    return rows
+
+
+# =============================================================================== SHAPE over rows
+_ROWS = []
+_SEED = 0
+
+
+def row_key(row):
+    return json.dumps([row["prog"], row["conf"]], sort_keys=True)
+
+
+def form_seed(ri):
+    return _SEED + ri
+
+
+def _shape_range(rng):
+    lo, hi = rng
+    out = []
+    for ri in range(lo, hi):
+        row = _ROWS[ri]
+        m = render(row["prog"], uid=ri, seed=form_seed(ri))
+        try:
+            sd = shape(m.src, m.node_at_line, real_conf(row["conf"]))
+            out.append((ri, sd.edits, sd.problems))
+        except Exception as ex:       # noqa
+            out.append((ri, None, [f"transformer raised {type(ex).__name__}: {ex}"]))
+    return out
+
+
+def classify_shape(prog, real, rule):
+    """Violation keys for a difference between real and expected edit sets (projected, no reeval)."""
+    keys = []
+    for e in sorted(rule - real):
+        twin = [x for x in real if x[0] == e[0] and x[1] == e[1]]
+        if twin:
+            t = twin[0]
+            what = [f for f, a, b in zip(("pos", "line", "conf"), e[2:], t[2:]) if a != b]
+            keys.append(({"obs": "shape", "diff": "differs:" + "+".join(what), "edit": e[0], "at": node_class(prog, e[1])},
+                         f"expected {e}, transformer produced {t}"))
+        else:
+            keys.append(({"obs": "shape", "diff": "missing", "edit": e[0], "at": node_class(prog, e[1])},
+                         f"expected edit {e} is missing"))
+    for e in sorted(real - rule):
+        if any(x[0] == e[0] and x[1] == e[1] for x in rule):
+            continue
+        keys.append(({"obs": "shape", "diff": "extra", "edit": e[0], "at": node_class(prog, max(e[1], 0))},
+                     f"transformer produced {e}, which the rule does not demand"))
+    return keys
+
+
+def describe_row(row, ri=0, bad=()):
+    return render(row["prog"], bad=bad, uid=ri, seed=form_seed(ri)).src
+
+
+class Findings:
+    """Violations by canonical key: count + first example (reported once per key)."""
+
+    def __init__(self):
+        self.by_key = {}
+
+    def add(self, key, what, case):
+        ck = json.dumps(key, sort_keys=True)
+        if ck not in self.by_key:
+            self.by_key[ck] = [key, what, case, 0]
+        self.by_key[ck][3] += 1
+
+    def report(self, rep):
+        for ck in sorted(self.by_key):
+            key, what, case, n = self.by_key[ck]
+            rep.violation(key, f"{what}  [{n} case(s) of this class]", case)
+
+
+def do_shape(rep, rows, finds, pool, origin="tlc"):
+    global _ROWS
+    _ROWS = rows
+    n = len(rows)
+    step = max(1, min(500, n // 64 + 1))
+    rngs = [(a, min(n, a + step)) for a in range(0, n, step)]
+    res = pool.map(_shape_range, rngs) if pool else [_shape_range(r) for r in rngs]
+    agree = 0
+    for chunk in res:
+        for ri, edits, problems in chunk:
+            row = rows[ri]
+            prog = row["prog"]
+            case = {"kind": "row", "row": row, "ri": ri}
+            rep.count(1)
+            for p in problems:
+                finds.add({"obs": "shape", "diff": "problem", "what": p.split(" at line")[0].split(" (line")[0][:80]},
+                          f"{p}\n{describe_row(row, ri)}", case)
+            if edits is None:
+                continue
+            real = edit_set(edits, False)
+            rule = edit_set(row["rule"], False)
+            if real == rule:
+                agree += 1
+            else:
+                for key, what in classify_shape(prog, real, rule):
+                    finds.add(key, f"SHAPE conf={row['conf']}: {what}\n{describe_row(row, ri)}", case)
+            if edit_set(edits, True) != edit_set(row["walk"], True):
+                real_r, walk_r = edit_set(edits, True), edit_set(row["walk"], True)
+                for key, what in classify_shape(prog, {e[:5] for e in real_r}, {e[:5] for e in walk_r}) or \
+                        [({"diff": "reeval"}, f"{sorted(real_r ^ walk_r)}")]:
+                    key = dict(key, obs="shape-vs-0.23.0-model")
+                    finds.add(key, f"SHAPE: the transformer differs from the rule AND from the model of the known "
+                                   f"0.23.0 deviations: {what}\n{describe_row(row, ri)}", case)
+            if len(row["rule"]) > 1:
+                rep.nontrivial(row_key(row))
+    rep.add("shape_rows", n)
+    rep.add("shape_rows_equal_to_rule", agree)
+    return agree
+
+
+# =============================================================================== MEANING over rows
+def variants_of(meta, cap=None):
+    sites = sorted(meta.sites)
+    vs = [("G", [])] + [(f"S{i}", [i]) for i in sites]
+    if len(sites) >= 2:
+        vs.append(("A", sites))
+    if cap is not None and len(vs) > cap:
+        vs = [vs[0]] + vs[1:cap - 1] + [vs[-1]]
+    return vs
+
+
+def _erase(x):
+    """Snapshot without the 'is a beartype wrapper' flags (for hooked vs unhooked)."""
+    if isinstance(x, list) and x and x[0] == "func":
+        return ["func"]
+    if isinstance(x, list):
+        return [_erase(y) for y in x]
+    if isinstance(x, dict):
+        return {k: _erase(v) for k, v in x.items()}
+    return x
+
+
+def build_meaning_items(rows, sel, cap):
+    """Items per mode for the selected row indices."""
+    items = {"unhooked": [], "hooked": [], "reference": []}
+    plan = []
+    for ri in sel:
+        row = rows[ri]
+        prog = row["prog"]
+        base = render(prog, uid=ri, seed=form_seed(ri))
+        legacy_differs = edit_set(row["walk"], False) != edit_set(row["rule"], False)
+        for vname, bad in variants_of(base, cap):
+            m = render(prog, bad=bad, uid=ri, seed=form_seed(ri))
+            r = render(prog, bad=bad, uid=ri, seed=form_seed(ri), edits=row["rule"], orig=m)
+            iid = f"{ri}.{vname}"
+            it = {"id": iid, "mod": f"m{ri}_{vname}", "conf": row["conf"]}
+            items["hooked"].append(dict(it, src=m.src))
+            items["reference"].append(dict(it, src=r.src))
+            r2 = None
+            if legacy_differs:
+                r2 = render(prog, bad=bad, uid=ri, seed=form_seed(ri), edits=row["walk"], orig=m)
+                items["reference"].append(dict(it, id=iid + ".L", mod=f"m{ri}_{vname}_L", src=r2.src))
+            unh = vname != "A"
+            if unh:
+                items["unhooked"].append(dict(it, src=m.src))
+            plan.append((ri, vname, bad, m, r, r2, unh))
+    return items, plan
+
+
+def batches(items, size):
+    jobs = []
+    for mode, its in items.items():
+        for a in range(0, len(its), size):
+            jobs.append((mode, its[a:a + size]))
+    return jobs
+
+
+def _where(prog, meta, line):
+    if line is None:
+        return {"node": "-"}
+    n = meta.node_at_line.get(line, meta.aux_at_line.get(line))
+    return node_class(prog, n) if n else {"node": "?"}
+
+
+def _cmp_byhand(h, r, refmeta):
+    """First differing field between the hooked execution and a by-hand reference, or None."""
+    if h["exc"] != r["exc"]:
+        return "exception", f"hooked raised {h['exc']} ({h['msg']}), by-hand reference raised {r['exc']} ({r['msg']})"
+    rl = refmeta.refmap.get(r["line"]) if r["line"] is not None else None
+    if h["line"] != rl:
+        return "line", f"hooked traceback line {h['line']}, by-hand reference line {rl} (reference file line {r['line']})"
+    if h["out"] != r["out"]:
+        return "stdout", f"evaluation order/count: hooked {h['out']}, by-hand {r['out']}"
+    if h["snap"] != r["snap"]:
+        return "snapshot", f"globals: hooked {h['snap']}, by-hand {r['snap']}"
+    if h["log"] != r["log"]:
+        return "decorator-order", f"decorator application log: hooked {h['log']}, by-hand {r['log']}"
+    return None
+
+
+def compare_meaning(rep, rows, plan, obs, finds):
+    n_equal = 0
+    for ri, vname, bad, m, r, r2, unh in plan:
+        row = rows[ri]
+        prog = row["prog"]
+        iid = f"{ri}.{vname}"
+        h = obs[("hooked", iid)]
+        rr = obs[("reference", iid)]
+        case = {"kind": "row", "row": row, "ri": ri, "variant": vname}
+        rep.count(1)
+        src = f"\n--- module (bad sites {bad}) conf={row['conf']}:\n{m.src}"
+        # the reference itself must be a sane program
+        if rr["exc"] is not None and not rr["exc"].startswith("Beartype"):
+            rep.machinery(f"the by-hand reference of row {ri} raised {rr['exc']}: {rr['msg']}\n{r.src}")
+        d = _cmp_byhand(h, rr, r)
+        if d is None:
+            n_equal += 1
+        else:
+            line = rr["line"] and r.refmap.get(rr["line"]) or h["line"]
+            key = {"obs": "meaning", "cmp": "hooked-vs-byhand", "field": d[0], "at": _where(prog, m, line)}
+            finds.add(key, f"MEANING: hooked module differs from the by-hand module written from the rule: {d[1]}{src}"
+                           f"--- by-hand reference:\n{r.src}", case)
+        if r2 is not None:
+            d2 = _cmp_byhand(h, obs[("reference", iid + ".L")], r2)
+        else:
+            d2 = d
+        if d2 is not None:
+            key = {"obs": "meaning-vs-0.23.0-model", "field": d2[0]}
+            finds.add(key, f"MEANING: hooked module differs from the by-hand module of the rule AND of the model of "
+                           f"the known 0.23.0 deviations: {d2[1]}{src}", case)
+        # evaluation counts
+        er = {(e["at"], e["part"]): e for e in row["evalRule"]}
+        ew = {(e["at"], e["part"]): e for e in row["evalWalk"]}
+        complete = h["exc"] is None
+        for ckey, (node, part) in m.counters.items():
+            got = h["counters"].get(ckey, 0)
+            want, legacy = er[(node, part)], ew[(node, part)]
+            over = got > want["n"]
+            under = complete and got < want["n"] and want["py"] == 1
+            if over or under:
+                nd = prog[node - 1]
+                near, _ = scope_class(prog, node)
+                if part == "ann" and nd["k"] == "ann":
+                    key = {"obs": "evalcount", "expr": "annotation of an annotated assignment", "nearest_scope": near,
+                           "count": got}
+                elif part == "base":
+                    key = {"obs": "evalcount", "expr": "target base that is not a name", "target": nd["tgt"], "count": got}
+                else:
+                    key = {"obs": "evalcount", "expr": part, "node": nd["k"], "count": got}
+                finds.add(key, f"EVALCOUNT: original expression {ckey} evaluated {got} time(s) under the hook, the "
+                               f"property demands {want['n']} (plain Python: {want['py']}){src}", case)
+            if (complete and got != legacy["n"]) or got > legacy["n"]:
+                finds.add({"obs": "evalcount-vs-0.23.0-model", "expr": part},
+                          f"EVALCOUNT: {ckey} evaluated {got} time(s); rule {want['n']}, model of 0.23.0 {legacy['n']}{src}",
+                          case)
+        if vname == "G":
+            if h["exc"] is not None and rr["exc"] is None and d is None:
+                pass
+            rep.nontrivial("m:" + row_key(row))
+        # hooked == unhooked where nothing violates
+        if unh and rr["exc"] is None and h["exc"] is None:
+            u = obs[("unhooked", iid)]
+            if u["exc"] is not None:
+                rep.machinery(f"the unhooked module of row {ri} raised {u['exc']}: {u['msg']}\n{m.src}")
+            local_ann = {f"{e['at']}.ann" for e in row["evalRule"] if e["part"] == "ann" and e["py"] == 0}
+
+            def flt(seq):
+                seen, out = set(), []
+                for k in seq:
+                    if k in local_ann or k in seen:
+                        continue
+                    seen.add(k)
+                    out.append(k)
+                return out
+            diff = None
+            if flt(h["out"]) != flt(u["out"]):
+                diff = ("stdout", f"hooked {h['out']}, unhooked {u['out']}")
+            elif _erase(h["snap"]) != _erase(u["snap"]):
+                diff = ("snapshot", f"hooked {h['snap']}, unhooked {u['snap']}")
+            elif [x[0] for x in h["log"]] != [x[0] for x in u["log"]]:
+                diff = ("decorator-order", f"hooked {h['log']}, unhooked {u['log']}")
+            if diff:
+                finds.add({"obs": "meaning", "cmp": "hooked-vs-unhooked", "field": diff[0]},
+                          f"MEANING: no hint is violated, yet the hooked module differs from the unhooked one: {diff[1]}{src}",
+                          case)
+            rep.add("hooked_vs_unhooked_compared")
+    rep.add("meaning_executions_compared", len(plan))
+    rep.add("meaning_hooked_equal_byhand", n_equal)
+
+
+def do_meaning(rep, rows, sel, finds, cap, batch=250):
+    items, plan = build_meaning_items(rows, sel, cap)
+    obs = run_children(batches(items, batch))
+    compare_meaning(rep, rows, plan, obs, finds)
+    n_raise = sum(1 for (mode, _), ob in obs.items() if mode == "hooked" and ob["exc"])
+    rep.add("hooked_imports", len(items["hooked"]))
+    rep.add("hooked_imports_raising_a_violation", n_raise)
+    if plan and not n_raise:
+        rep.machinery("vacuous MEANING run: no hooked import ever raised a violation")
+    return obs
+
+
+# =============================================================================== RESILIENCE
+def covered(row, i):
+    """Is function i type-checked according to the spec's edit set (own decoration or its class's)?"""
+    decorated = {e["at"] for e in row["rule"] if e["kind"] == "decorate"}
+    s = row["scope"][i - 1]
+    return i in decorated or (s != 0 and row["prog"][s - 1]["k"] == "class" and s in decorated)
+
+
+def do_resilience(rep, rows, sel, finds, batch=250):
+    items, plan = [], []
+    for ri in sel:
+        row = rows[ri]
+        prog = row["prog"]
+        funcs = [i for i, n in enumerate(prog, 1) if n["k"] == "func" and n["ann"]]
+        for p in funcs:
+            m = render(prog, bad=funcs, uid=ri, seed=form_seed(ri), poison=[p])
+            iid = f"{ri}.P{p}"
+            items.append({"id": iid, "mod": f"p{ri}_{p}", "conf": row["conf"], "src": m.src, "catch": True})
+            plan.append((ri, p, funcs, m, iid))
+    obs = run_children(batches({"hooked": items}, batch))
+    n_warn = 0
+    for ri, p, funcs, m, iid in plan:
+        row = rows[ri]
+        prog = row["prog"]
+        h = obs[("hooked", iid)]
+        case = {"kind": "resilience", "row": row, "ri": ri, "poison": p}
+        src = f"\n--- module (definition f{p} has the unusable hint 42) conf={row['conf']}:\n{m.src}"
+        rep.count(1)
+        at = node_class(prog, p)
+        if h["exc"] is not None:
+            finds.add({"obs": "resilience", "what": "import broken", "at": at},
+                      f"RESILIENCE: the import raised {h['exc']}: {h['msg']}{src}", case)
+            continue
+        warns = [w for w in h["warns"] if w[0] == "BeartypeClawDecorWarning"]
+        other = [w for w in h["warns"] if w[0] != "BeartypeClawDecorWarning"]
+        want = 1 if covered(row, p) else 0
+        n_warn += len(warns)
+        if len(warns) != want or other:
+            finds.add({"obs": "resilience", "what": "warnings", "at": at, "got": len(warns), "want": want},
+                      f"RESILIENCE: {len(warns)} BeartypeClawDecorWarning (+{other}) emitted, expected {want}{src}", case)
+        log = dict((a, b) for a, b in h["sitelog"])
+        for i in funcs:
+            got = log.get(f"f{i}", "never called")
+            if i == p:
+                if got is not None:
+                    finds.add({"obs": "resilience", "what": "poisoned definition not left unchecked", "at": at},
+                              f"RESILIENCE: calling the undecoratable f{p} gave {got}{src}", case)
+            else:
+                exp = covered(row, i)
+                ok = (got is not None and got != "never called" and got.startswith("BeartypeCallHint")) if exp else got is None
+                if not ok:
+                    finds.add({"obs": "resilience", "what": "sibling definition", "sibling": node_class(prog, i),
+                               "poisoned": at, "checked": bool(got)},
+                              f"RESILIENCE: sibling f{i} called with a bad value gave {got}, the spec's edit set says "
+                              f"{'checked' if exp else 'unchecked'}{src}", case)
+    rep.add("resilience_programs", len(plan))
+    rep.add("resilience_warnings_seen", n_warn)
+    if plan and not n_warn:
+        rep.machinery("vacuous RESILIENCE run: no BeartypeClawDecorWarning was ever emitted")
+
+
+# =============================================================================== R3: the repository's data packages
+_BLOCKS = {"If": "if", "For": "for", "AsyncFor": "for", "While": "while", "Try": "try", "TryStar": "try",
+           "With": "with", "AsyncWith": "with", "Match": "match"}
+
+
+def _typed(fn):
+    a = fn.args
+    every = a.posonlyargs + a.args + a.kwonlyargs + [x for x in (a.vararg, a.kwarg) if x]
+    return bool(fn.returns) or any(x.annotation for x in every)
+
+
+def abstract_module(tree):
+    """Real module AST -> (spec tree in preorder, statement line -> node).  None if outside the grammar."""
+    prog, nal = [], {}
+
+    def node(k, d, **kw):
+        n = {"k": k, "ann": False, "asy": False, "decs": [], "tgt": "-", "val": False, "bk": "-", "d": d}
+        n.update(kw)
+        prog.append(n)
+        return len(prog)
+
+    def walk(stmts, d, module_prefix=False):
+        prefix = module_prefix
+        for s in stmts:
+            t = type(s).__name__
+            if t == "TypeAlias":
+                raise NotImplementedError("PEP 695 type statement")
+            is_doc = isinstance(s, ast.Expr) and isinstance(s.value, ast.Constant)
+            is_fut = isinstance(s, ast.ImportFrom) and s.module == "__future__"
+            if prefix and (is_doc or is_fut):
+                i = node("doc" if is_doc else "future", d)
+            else:
+                prefix = False
+                if isinstance(s, (ast.FunctionDef, ast.AsyncFunctionDef)):
+                    i = node("func", d, ann=_typed(s), asy=isinstance(s, ast.AsyncFunctionDef),
+                             decs=["p"] * len(s.decorator_list))
+                    walk(s.body, d + 1)
+                elif isinstance(s, ast.ClassDef):
+                    i = node("class", d, decs=["p"] * len(s.decorator_list))
+                    walk(s.body, d + 1)
+                elif isinstance(s, ast.AnnAssign):
+                    tg = s.target
+                    kind = "name" if isinstance(tg, ast.Name) else "subscript" if isinstance(tg, ast.Subscript) else \
+                        ("attr" if isinstance(tg.value, ast.Name) else "attrcall")
+                    i = node("ann", d, tgt=kind, val=s.value is not None)
+                elif t in _BLOCKS:
+                    i = node("block", d, bk=_BLOCKS[t])
+                    sub = []
+                    for f in ("body", "orelse", "finalbody"):
+                        sub += getattr(s, f, [])
+                    for hd in getattr(s, "handlers", []):
+                        sub += hd.body
+                    for cs in getattr(s, "cases", []):
+                        sub += cs.body
+                    sub.sort(key=lambda x: (x.lineno, x.col_offset))
+                    walk(sub, d + 1)
+                elif isinstance(s, (ast.Import, ast.ImportFrom)):
+                    i = node("import", d)
+                elif isinstance(s, ast.Pass):
+                    i = node("pass", d)
+                else:
+                    i = node("expr", d)
+            if s.lineno in nal:
+                raise NotImplementedError("two statements on one line")
+            nal[s.lineno] = i
+    walk(tree.body, 1, module_prefix=True)
+    return prog, nal
+
+
+def _tla_node(n):
+    decs = "<<" + ", ".join('"%s"' % x for x in n["decs"]) + ">>"
+    b = lambda x: "TRUE" if x else "FALSE"      # noqa
+    return (f'[k |-> "{n["k"]}", ann |-> {b(n["ann"])}, asy |-> {b(n["asy"])}, decs |-> {decs}, tgt |-> "{n["tgt"]}", '
+            f'val |-> {b(n["val"])}, bk |-> "{n["bk"]}", d |-> {n["d"]}]')
+
+
+def data_files():
+    root = os.path.join(_repo(), DATA_DIR)
+    out = []
+    for dp, _dn, fns in sorted(os.walk(root)):
+        for fn in sorted(fns):
+            if fn.endswith(".py"):
+                out.append(os.path.join(dp, fn))
+    return out
+
+
+def do_given(rep, d, finds):
+    from verifkit import tlc
+    from verifkit.util import write_file
+    progs = {}
+    skipped = []
+    for path in data_files():
+        src = open(path, encoding="utf-8").read()
+        try:
+            tree = ast.parse(src)
+            prog, nal = abstract_module(tree)
+        except (NotImplementedError, SyntaxError) as ex:
+            skipped.append(f"{os.path.relpath(path, _repo())}: {ex}")
+            continue
+        if not prog:
+            # the empty module: no statement, no edit
+            prog = []
+        progs.setdefault(json.dumps(prog, sort_keys=True), []).append((path, src, nal, prog))
+    body = ",\n  ".join("<<" + ", ".join(_tla_node(n) for n in json.loads(k)) + ">>" for k in sorted(progs))
+    write_file(d, "ClawAstGiven.tla",
+               "---- MODULE ClawAstGiven ----\nEXTENDS ClawAst\nGivenDef == {\n  " + body + "\n}\n====\n")
+    cfg = _cfg(d, "given", "given", 1, 1, legacy=LEGACY, emit=True, invs=EMIT_INVS, given=True)
+    res = tlc.run_tlc(os.path.join(d, "ClawAstGiven.tla"), cfg, workers=4, deadlock=False)
+    rep.tlc(res, f"ClawAst slice given: {len(progs)} trees abstracted from {DATA_DIR}")
+    if not res.ok:
+        rep.machinery(f"ClawAst.tla violates {res.violated} on a tree abstracted from the repository's data packages")
+    rows = rows_of(res)
+    seen = 0
+    for row in rows:
+        for path, src, nal, prog in progs.get(json.dumps(row["prog"], sort_keys=True), []):
+            rel = os.path.relpath(path, _repo())
+            modname = rel[:-3].replace("/", ".")
+            case = {"kind": "given", "file": rel, "conf": row["conf"]}
+            try:
+                sd = shape(src, nal, real_conf(row["conf"]), modname=modname, path=path)
+            except Exception as ex:       # noqa
+                finds.add({"obs": "shape", "diff": "problem", "what": f"transformer raised {type(ex).__name__}"},
+                          f"{rel}: {ex}", case)
+                continue
+            seen += 1
+            rep.count(1)
+            for p in sd.problems:
+                finds.add({"obs": "shape", "diff": "problem", "what": p.split(" at line")[0].split(" (line")[0][:80]},
+                          f"{rel}: {p}", case)
+            real, rule = edit_set(sd.edits, False), edit_set(row["rule"], False)
+            if real != rule:
+                for key, what in classify_shape(prog, real, rule):
+                    finds.add(key, f"SHAPE {rel} conf={row['conf']}: {what}", case)
+            if edit_set(sd.edits, True) != edit_set(row["walk"], True):
+                finds.add({"obs": "shape-vs-0.23.0-model", "file": rel},
+                          f"SHAPE {rel}: {sorted(edit_set(sd.edits, True) ^ edit_set(row['walk'], True))}", case)
+            rep.add("traces_validated_against_impl")
+    if seen < 3 * len(progs):
+        rep.machinery(f"only {seen} of {3 * len(progs)} (data module, configuration) pairs were replayed")
+    rep.add("data_modules_replayed", sum(len(v) for v in progs.values()))
+    for s in skipped:
+        rep.assumptions.append(f"data module outside the spec grammar, not replayed: {s}")
+    return rows
+
+
+# =============================================================================== entry points
+ASSUMPTIONS = [
+    "Annotation expressions of function-local annotated assignments are resolvable: plain Python never evaluates "
+    "them (PEP 526), the hook evaluates them once; their counters are excluded from hooked == unhooked.",
+    "Generated __future__ imports are 'division' (a no-op feature); 'from __future__ import annotations' is not generated.",
+    "The hostile decorator is langchain_core.runnables.chain (in the default beforelist) provided by a scratch package.",
+    "Violation classes are compared by name; messages (exception_prefix wording) are not compared.",
+    "A module-level annotated assignment whose hint beartype cannot handle raises under the hook exactly as the "
+    "by-hand die_if_unbearable call does; the resilience clause is read as being about function and class definitions.",
+]
+
+
+def select_rows(rows, tier, rng):
+    """Row indices for MEANING (hookable configurations only) and RESILIENCE."""
+    meaning, resil = [], []
+    for ri, row in enumerate(rows):
+        if not row["conf"]["other"]:
+            continue
+        n = len(row["prog"])
+        sl = row["slice"]
+        lim = {"quick": {"scope": 4, "kinds": 3, "deco": 3, "prefix": 4},
+               "thorough": {"scope": 5, "kinds": 3, "kinds4": 4, "deco": 3, "prefix": 5}}[tier].get(sl, 3)
+        if n <= lim:
+            meaning.append(ri)
+        elif rng.random() < {"quick": 0.08, "thorough": 0.12}[tier]:
+            meaning.append(ri)
+        if sl == "scope" and row["conf"]["pep"] and n <= (3 if tier == "quick" else 4) \
+                and edit_set(row["walk"], False) == edit_set(row["rule"], False) \
+                and any(x["k"] == "func" and x["ann"] for x in row["prog"]):
+            resil.append(ri)
+    return meaning, resil
+
+
+def run(rep, tier, seed):
+    global _SEED
+    import multiprocessing as mp
+    from verifkit.util import scratch
+    _SEED = seed
+    rng = random.Random(seed)
+    rep.assumptions.extend(ASSUMPTIONS)
+    finds = Findings()
+    with scratch("c05-") as d:
+        t0 = time.time()
+        rows = run_models(rep, tier, d)
+        rep.note(f"TLC: {len(rows)} (program, configuration) rows in {time.time() - t0:.0f}s")
+        real_conf({"pep": True, "pf": "LBH", "pt": "LAST", "other": True})   # import beartype before forking
+        import beartype.claw._ast.clawastmain  # noqa
+        meaning, resil = select_rows(rows, tier, rng)
+        t1 = time.time()
+        with mp.get_context("fork").Pool(16) as pool:
+            do_shape(rep, rows, finds, pool)
+        rep.note(f"SHAPE: {len(rows)} rows in {time.time() - t1:.0f}s")
+        t2 = time.time()
+        do_meaning(rep, rows, meaning, finds, cap=6 if tier == "quick" else 8)
+        rep.note(f"MEANING: {len(meaning)} programs in {time.time() - t2:.0f}s")
+        t3 = time.time()
+        do_resilience(rep, rows, resil, finds)
+        rep.note(f"RESILIENCE: {len(resil)} programs in {time.time() - t3:.0f}s")
+        do_given(rep, d, finds)
+    # non-vacuity of the binding
+    by_slice = {}
+    for r in rows:
+        by_slice[r["slice"]] = by_slice.get(r["slice"], 0) + 1
+    rep.cov["rows_by_slice"] = by_slice
+    kinds = {e["kind"] for r in rows for e in r["rule"]}
+    if kinds != {"import", "decorate", "check"}:
+        rep.machinery(f"vacuous case table: edit kinds {kinds}")
+    mid = rows[len(rows) // 2]
+    rep.sample({"program": describe_row(mid, len(rows) // 2), "conf": mid["conf"], "rule_edits": mid["rule"]})
+    for r in rows[:: max(1, len(rows) // 5)][:5]:
+        rep.sample({"program": describe_row(r), "conf": r["conf"], "rule_edits": r["rule"]})
+    finds.report(rep)
+
+
+def replay(rep, path):
+    global _SEED
+    body = json.load(open(path))
+    case = body["case"]
+    _SEED = body.get("seed", 0)
+    rep.assumptions.extend(ASSUMPTIONS)
+    finds = Findings()
+    from verifkit import tlc
+    from verifkit.util import scratch
+    with scratch("c05-") as d:
+        # the model is re-run on the small deco slice so that the evidence carries TLC statistics
+        res = tlc.run_tlc(SPEC, _cfg(d, "replay", "prefix", 2, 2), workers=2, deadlock=False)
+        rep.tlc(res, "ClawAst prefix slice (replay)")
+        if case["kind"] == "given":
+            do_given(rep, d, finds)
+        else:
+            ri = case["ri"]
+            rows = [None] * ri + [case["row"]]
+            global _ROWS
+            _ROWS = rows
+            sel = [ri]
+            real_conf(case["row"]["conf"])
+            # SHAPE
+            only = _shape_range((ri, ri + 1))
+            _replay_shape(rep, rows, ri, only, finds)
+            if case["row"]["conf"]["other"]:
+                do_meaning_safe(rep, rows, sel, finds)
+            if case["kind"] == "resilience":
+                do_resilience(rep, rows, sel, finds)
+    rep.sample({"program": describe_row(case["row"], case.get("ri", 0)) if "row" in case else case.get("file")})
+    rep.nontrivial("a")
+    rep.nontrivial("b")
+    finds.report(rep)
+
+
+def _replay_shape(rep, rows, ri, only, finds):
+    row = rows[ri]
+    for _ri, edits, problems in only:
+        rep.count(1)
+        case = {"kind": "row", "row": row, "ri": ri}
+        for p in problems:
+            finds.add({"obs": "shape", "diff": "problem", "what": p.split(" at line")[0].split(" (line")[0][:80]},
+                      f"{p}\n{describe_row(row, ri)}", case)
+        if edits is None:
+            continue
+        real, rule = edit_set(edits, False), edit_set(row["rule"], False)
+        if real != rule:
+            for key, what in classify_shape(row["prog"], real, rule):
+                finds.add(key, f"SHAPE conf={row['conf']}: {what}\n{describe_row(row, ri)}", case)
+
+
+def do_meaning_safe(rep, rows, sel, finds):
+    items, plan = build_meaning_items(rows, sel, None)
+    obs = run_children(batches(items, 250))
+    compare_meaning(rep, rows, plan, obs, finds)
+
+
+if __name__ == "__main__":
+    if len(sys.argv) == 3 and sys.argv[1] == "--child":
+        sys.exit(child_main(sys.argv[2]))
